@@ -43,10 +43,10 @@
    0-ary predicate of it (outside: rename_conflicting_symbols acts, finding F8c).  No premise about
    rename clashes (finding F9) is needed: the statement is about the interpretation of the renamed
    names themselves.
-   NOT covered: proof outlines (C13, validated level); non-tight programs; the public-level reading
-   "for every external stable model T of the program and every interpretation of the spec-private
-   predicates" (it needs an interpretation that carries T's private extents under the renamed names:
-   faithful outside F9, as C02_countermodel_complete). *)
+   PUBLIC LEVEL (second half of the file): the difference stated on the two sides separately (J for the
+   specification side, T for the program side under its own names); the converse there needs the
+   renaming to be faithful (spec_rename_faithful; outside it: finding F9, C02spec_rename_unfaithful_witness).
+   NOT covered: proof outlines (C13, validated level); non-tight programs. *)
 From Coq Require Import List String ZArith Bool.
 Import ListNotations.
 From Anthem Require Import Base.ISet Syntax.Fol Syntax.Asp Sem.Domain Sem.Sat Sem.AspRef
@@ -54,7 +54,7 @@ From Anthem Require Import Base.ISet Syntax.Fol Syntax.Asp Sem.Domain Sem.Sat Se
   Model.Completion Model.StrategyCls Model.ExternalFull
   Proofs.SemBase Proofs.DecomposeOk Proofs.StrongOk Proofs.ExternalOk Proofs.AssemblyOk Proofs.RenameOk
   Proofs.C19Ext Proofs.C02Ok Proofs.PlaceholderOk Proofs.C02Full Proofs.PrivateUnique Proofs.C02Behaviour
-  Proofs.C02Spec Proofs.C02SpecWitness.
+  Proofs.C02Complete Proofs.C02Spec Proofs.C02SpecComplete Proofs.C02SpecWitness.
 Open Scope string_scope.
 Open Scope list_scope.
 
@@ -172,3 +172,73 @@ Example C02spec_nonvacuous :
     refutes_some FI Mf pbsx /\ spec_difference tx Sx FI Mf.
 Proof. exact tx_nonvacuous. Qed.
 Print Assumptions C02spec_nonvacuous.
+
+(* ---------------- the public-level reading ----------------
+   spec_voc t S              := the predicates of S and the public predicates
+   spec_public_difference t S FI J T  :=  J (specification side) and T (program side, own names) have the same
+        public part, J satisfies the user-guide assumptions and spec_stable, and
+        ( forward:   J satisfies spec_forward_premises and NO interpretation with J's public part is an external
+                     stable model of the program
+        \/ backward: T is an external stable model of the program and J falsifies a formula of spec_backward_conclusions )
+   spec_rename_faithful t S  := the names under which the private predicates of the program occur in the
+        problems (p_p when the specification has a private p/n as well, else p) are pairwise distinct and none of
+        them is a predicate of the specification or public (decidable: spec_rename_faithfulb) *)
+
+(* a per-interpretation difference is a public-level one (no class premise) *)
+Theorem C02spec_difference_public :
+  forall (t : ext_task) (S : specification) (FI : fint) (M : pint),
+    spec_difference t S FI M -> spec_public_difference t S FI M (reindex (task_mapping t) M).
+Proof. exact spec_difference_public. Qed.
+Print Assumptions C02spec_difference_public.
+
+(* from a public-level difference ONE interpretation of the problems' vocabulary is constructed that refutes
+   an emitted problem: J on the specification side's vocabulary, and - under the renamed names - T's private
+   extents (backward) resp. the supported private extension of J's public part (forward,
+   C02_private_extension_exists) *)
+Theorem C02spec_public_complete :
+  forall (fuel : nat) (t : ext_task) (S : specification) w pbs,
+    et_specification t = inr S -> et_proof_outline t = [] ->
+    external_decompose_full fuel t = XOk w pbs ->
+    is_tight (et_program t) = true ->
+    (forall vt, task_validated tau_star_total completion (simp_classic_total fuel) t = Some vt -> validated_no_clash vt) ->
+    spec_rename_faithful t S ->
+    forall (FI : fint) (J T : pint), spec_public_difference t S FI J T ->
+      exists M, pagree (spec_voc t S) M J /\ refutes_some FI M pbs.
+Proof. exact spec_public_complete. Qed.
+Print Assumptions C02spec_public_complete.
+
+(* C02 for specification-vs-program tasks at the public level: some interpretation refutes an emitted
+   problem IFF the specification and the program differ; hence every emitted problem is irrefutable in
+   standard structures iff the claimed relation holds *)
+Theorem C02spec_external_equivalence :
+  forall (fuel : nat) (t : ext_task) (S : specification) w pbs,
+    et_specification t = inr S -> et_proof_outline t = [] ->
+    external_decompose_full fuel t = XOk w pbs ->
+    is_tight (et_program t) = true ->
+    (forall vt, task_validated tau_star_total completion (simp_classic_total fuel) t = Some vt -> validated_no_clash vt) ->
+    spec_rename_faithful t S ->
+    forall (FI : fint), (exists M, refutes_some FI M pbs) <-> (exists J T, spec_public_difference t S FI J T).
+Proof. exact spec_external_equivalence. Qed.
+Print Assumptions C02spec_external_equivalence.
+
+Theorem C02spec_rename_faithful_decidable :
+  forall (t : ext_task) (S : specification), spec_rename_faithfulb t S = true -> spec_rename_faithful t S.
+Proof. exact spec_rename_faithfulb_ok. Qed.
+Print Assumptions C02spec_rename_faithful_decidable.
+
+(* non-vacuity of the public-level theorems on tx: spec_rename_faithful holds, the difference is obtained
+   THROUGH C02spec_external_equivalence and a countermodel back THROUGH C02spec_public_complete *)
+Example C02spec_public_nonvacuous :
+  spec_rename_faithful tx Sx /\
+  forall FI, (exists J T, spec_public_difference tx Sx FI J T) /\
+             (exists M, pagree (spec_voc tx Sx) M Mb /\ refutes_some FI M pbsx).
+Proof. exact (conj tx_rename_faithful (fun FI => conj (tx_public_difference FI) (tx_public_complete FI))). Qed.
+Print Assumptions C02spec_public_nonvacuous.
+
+(* the class outside spec_rename_faithful is inhabited by accepted tasks (finding F9 on a specification
+   task): assumption: forall X (aux(X) -> p(X)). spec: forall X (q(X) -> p(X)).  vs
+   aux(X) :- p(X). aux_p(X) :- p(X). q(X) :- aux(X), not aux_p(X). *)
+Example C02spec_rename_unfaithful_witness :
+  (exists w pbs, external_decompose_full full_fuel t9s = XOk w pbs) /\ ~ spec_rename_faithful t9s S9.
+Proof. exact (conj t9s_accepted t9s_not_faithful). Qed.
+Print Assumptions C02spec_rename_unfaithful_witness.
